@@ -492,11 +492,15 @@ def random_split(I, key, num=2):
     _used("A8: jax.random.split(k, n)[i] and fold_in(k, a) are pure, injective in i / a, and differ from k")
     kt = I.to_u(key)
     f = I.ctx.fn("split", U, z3.IntSort(), z3.IntSort(), U)
+    def sub(n, i):
+        t = f(kt, n, i)
+        I.ctx.assume(t != kt)            # A8: a derived key differs from its parent
+        return UVal(t, "key")
     if isinstance(num, int):
         # an ARRAY of `num` keys (it unpacks like a tuple and maps like a batch)
-        return Stacked(num, lambda i: UVal(f(kt, z3.IntVal(num), i), "key"), tag="split")
+        return Stacked(num, lambda i: sub(z3.IntVal(num), i), tag="split")
     n = zint(num)
-    return Stacked(n, lambda i: UVal(f(kt, n, i), "key"), tag="split")
+    return Stacked(n, lambda i: sub(n, i), tag="split")
 
 
 def random_fold_in(I, key, data):
